@@ -121,6 +121,7 @@ class ProgGen:
 		self.fixed_calls: dict = {}
 		self.generics: dict = {}
 		self.exc: str | None = None
+		self.uses_classvar = False
 		self.p_generic = 0.3
 		self.generic_class_only = False   # module families: the defining module leaves the first instantiation to its importers
 		self.force_op: int | None = None   # diagnostics: container probe with one operation kind
@@ -847,6 +848,13 @@ class ProgGen:
 			lines += [f'def {helper}({ha}: int) -> int:', f'\treturn {ha} + {self.pick(PRIMES)}', '']
 			tags.add('member-shadows-global')
 		lines += [f'class {name}({base}):' if base else f'class {name}:']
+		if self.chance(0.4) and self.on('class-var'):
+			# class-level variables (public and protected by their leading underscore), read through the class name
+			info['class_vars'] = [(f'cv{k_cls}', T_INT), (f'_cw{k_cls}', T_STR)]
+			lines.append(f'\tcv{k_cls}: ClassVar[int] = {self.pick(PRIMES)}')
+			lines.append(f"\t_cw{k_cls}: ClassVar[str] = '{self.pick(['x', 'ab', ''])}'")
+			self.uses_classvar = True
+			tags.add('class-var')
 		for f, t in fields:
 			lines.append(f'\t{f}: {py_ty(t)}')
 		lines.append('')
@@ -931,6 +939,9 @@ class ProgGen:
 		for f, t in self.all_fields(cname):
 			cx.env[f'self.{f}'] = t
 			cx.readonly.add(f'self.{f}')
+		for f, t in self.classes[cname].get('class_vars', []):
+			cx.env[f'{cname}.{f}'] = t
+			cx.readonly.add(f'{cname}.{f}')
 		out: list[str] = []
 		if self.chance(0.4):
 			out += self.stmt(cx, '\t\t')
@@ -981,7 +992,7 @@ class ProgGen:
 			return self.pick([n, '1', '7', f'{n} + 1', f'int(len({s_}))'])
 
 		def op() -> list[str]:
-			c = r.randint(0, 38) if self.force_op is None else self.force_op
+			c = r.randint(0, 40) if self.force_op is None else self.force_op
 			v = self.fresh()
 			k = key()
 			if c == 0:
@@ -1065,6 +1076,14 @@ class ProgGen:
 				# augmented assignment to an element with a compound right-hand side (Python: target op= (rhs))
 				op, rhs = self.pick([('-=', f'{n} - 1'), ('-=', f'{n} + 2'), ('*=', f'{n} + 1'), ('*=', f'2 - {n}'), ('&=', f'{n} | 1'), ('^=', f'{n} & 6'), ('+=', f'1 if {n} > 1 else 2'), ('-=', f'-{n}')])
 				return [f'\tif len({xs}) > 0:', f'\t\t{xs}[0] {op} {rhs}', f'\t\t{out}.append({xs}[0])']
+			if c == 39:
+				# range() with computed bounds and a computed positive step, also one written as a negated expression
+				i3 = self.fresh('i')
+				head = self.pick([f'range({n} + 1, {n} + 4)', f'range(int(len({xs})))', f'range(0, 6, -({n} - 7))', f'range({n}, {n} + 5, 1 + int(len({s_})))', f'range(1, 7, 7 - {n})'])
+				return [f'\tif {n} < 7 and {n} > -3:', f'\t\tfor {i3} in {head}:', f'\t\t\t{out}.append({i3})']
+			if c == 40 and self.on('list-comp'):
+				i3 = self.fresh('i')
+				return [f'\tif {n} < 7 and {n} > -3:', f'\t\t{v} = [{i3} * 2 for {i3} in range({n}, {n} + 3)]', f'\t\t{out}.append(len({v}) * 100 + {v}[0])']
 			if c == 38:
 				op, rhs = self.pick([('-=', f'{n} - 1'), ('*=', f'{n} + 1'), ('-=', f'3 - {n} - 1'), ('+=', f'{n} if {n} > 0 else -{n}')])
 				return [f'\tif {k} in {d}:', f'\t\t{d}[{k}] {op} {rhs}', f'\t\t{out}.append({d}[{k}])']
@@ -1084,6 +1103,18 @@ class ProgGen:
 		# three vectors that put indices strictly inside the sequences (start > 0, end < len), then random ones
 		self.fixed_calls[name] = [[[3, -1, 4], {'a': 5, 'b': 0}, 'xaab', 1], [[0, 2, 7, 1], {'b': -3, 'zz': 1}, 'abcab', 2], [[1], {'a': -1}, 'ab', 0]] + \
 			[[self.pick(xss), self.pick(ds), self.pick(['a', 'b', '', 'ab', 'xaab']), self.pick([-1, 0, 1, 2, 3, 6])] for _ in range(3)]
+
+	def gen_iterator(self) -> None:
+		"""A class in the classic iterator-protocol style (__iter__ returns the object, __next__ the elements) used by a for loop and a
+		comprehension: the element type is the one of __next__ (typed and run under CPython; not transpiled)."""
+		k = len(self.funcs)
+		name = f'f{k}'
+		a, acc, x, ys, y = self.fresh('a'), self.fresh(), self.fresh('x'), self.fresh(), self.fresh('y')
+		self.lines += [f'class IT{k}:', '\tn: int', '', '\tdef __init__(self, n: int) -> None:', '\t\tself.n = n', '', f"\tdef __iter__(self) -> 'IT{k}':", '\t\treturn self', '',
+			'\tdef __next__(self) -> int:', '\t\tif self.n <= 0:', '\t\t\traise StopIteration()', '\t\tself.n = self.n - 1', '\t\treturn self.n', '',
+			f'def {name}({a}: int) -> int:', f'\t{acc} = 0', f'\tfor {x} in IT{k}({a}):', f'\t\t{acc} = {acc} + {x}', f'\t{ys} = [{y} for {y} in IT{k}(2)]', f'\treturn {acc} + len({ys})', '']
+		self.funcs.append((name, [(a, T_INT, None)], T_INT, {'iterator-class'}))
+		self.fixed_calls[name] = [[3], [0]]
 
 	def gen_wide_func(self) -> None:
 		"""A function with 11-13 parameters, two or more of them of generic type at positions that are far apart (#1 and #10+): the flattened
@@ -1367,9 +1398,13 @@ class ProgGen:
 			self.gen_optional_func()
 		if self.chance(0.25) and self.on('wide-signature'):
 			self.gen_wide_func()
+		if self.chance(0.2) and self.on('iterator-class'):
+			self.gen_iterator()
 		header = ['from enum import Enum'] if self.enums else []
 		if self.generics:
 			header.append('from typing import Generic, TypeVar')
+		if self.uses_classvar:
+			header.append('from typing import ClassVar')
 		if self.uses_callable:
 			header.append('from collections.abc import Callable')
 		source = '\n'.join(header + [''] + self.lines) + '\n'
